@@ -192,7 +192,7 @@ CLAIMS = {
              "triangle's own lags (bit-identical) and lags +-1, kept where float and exact comparison agree.",
         tech="Lean 4 proof (filter/sublist/partition algebra on sorted lists) + differential correspondence"),
     "C12": dict(level=PV, ref="§7 C12",
-        text="50 kernel-checked theorems, none open, about the exact model of date_utils (incl. the date.max / inf sentinel short-circuits of calculate_dev_lag and add_months, Model/DateUtilsExt): addMonths_devLag_iff (the inverse law "
+        text="53 kernel-checked theorems, none open, about the exact model of date_utils (incl. the date.max / inf sentinel short-circuits of calculate_dev_lag and add_months, Model/DateUtilsExt): addMonths_devLag_iff (the inverse law "
              "holds in the model iff the target is >= 1970 or a month end - the exact extent of known finding D8), "
              "addMonths_devLag_partial, the pre-1970 counterexample, addMonths_int_monthId, addMonths_monthEnd, "
              "addMonths_add, addMonths_neg, devLag_monthEnds_int, devLag_days_eq_ordinal_diff, ordinal/ofOrdinal "
@@ -221,7 +221,7 @@ CLAIMS = {
              "(guard counts in the evidence).",
         tech="Lean 4 theorems (sortedDedup, gcd, pairwise non-overlap) + differential correspondence"),
     "C14": dict(level=PV, ref="§7 C14",
-        text="PARTIAL (pandas' CSV text layer - dtype inference, NaN handling, date parsing, float formatting - is library behaviour outside the model, correspondence only; the row algebra is proved). 46 kernel-checked theorems, none open. Row-algebra model of the wide/long CSV writers and readers, the array data frame and the Matrix form. "
+        text="PARTIAL (pandas' CSV text layer - dtype inference, NaN handling, date parsing, float formatting - is library behaviour outside the model, correspondence only; the row algebra is proved). 65 kernel-checked theorems, none open. Row-algebra model of the wide/long CSV writers and readers, the array data frame and the Matrix form. "
              "Proved: slices_preserved_keys (decide over the group-by key lists regenerated from /repo: they contain "
              "the coordinates, all six metadata columns and the detail columns), groupKey_determines_metadata, "
              "slices_preserved_wide/long, rows_count_wide/long, fromWide_toWide and fromLong_toLong (cumulative triangles: "
@@ -236,7 +236,11 @@ CLAIMS = {
              "arguments, the rest of io/array.py (parse_date, statics_data_frame_to_triangle incl. its days//30 inference with "
              "statics_inference_table and statics_february_refused, triangle_to_right_edge_data_frame, array_triangle_builder) and the "
              "in-memory data frames (column dtypes vs _check_index_columns: longFrame_never_reads_back, wideFrame_incremental_refused, "
-             "fromWideFrame_toWideFrame); fromWide_toWide covers sample triangles whose cells carry different field sets (D24). "
+             "fromWideFrame_toWideFrame); fromWide_toWide covers sample triangles whose cells carry different field sets (D24); round 3: toRich_indexError_iff, "
+             "toRich_disagg_spec (disaggregation ids = running count of spanning items, same value on the whole anti-diagonal), "
+             "toRich_missing_ids (MissingValue(n) exactly on covered, in-array, still-None positions in scan order), fromRich_ignores_disagg, "
+             "parseDate_year/_quarter/_half/_month/_iso/_refusals for every year 1..9999, fromArrayFrame_args(_inferred) for any "
+             "eval_resolution / dev_lag_from_period_end / metadata, arrayBuilder_spec (= merge of the single-field triangles, C10). "
              "Correspondence: CSV text parsed with Python's csv module vs the model's rows, "
              "from_*_csv(to_*_csv(t)) vs original and model for slices distinguished by any single attribute or "
              "detail, sample order through the scenario column, array-frame round trips over resolutions 1/3/6/12 and "
